@@ -2,7 +2,7 @@
 (coq/Extract/RCases.v).  Every atomic step of a coroutine starts with a non-output entry; the
 output entries that follow it (tasks created, asyncio.wait calls, verdicts) are attached to it."""
 
-BAD = 999999
+BAD = 99999
 
 WK = {"main": 0, "tidy": 1, "ctidy": 2, "shut": 3, "shtidy": 4}
 SDRES = {"true": 0, "false": 1, "none": 2, "cancelled": 3}
@@ -22,7 +22,8 @@ def enc_opt(x):
 
 
 def enc_nats(l):
-    return [len(l)] + list(l)
+    # ids the harness could not attribute to a job (-1) become the sentinel BAD, never a negative
+    return [len(l)] + [x if isinstance(x, int) and x >= 0 else BAD for x in l]
 
 
 def enc_cfg(cfg):
@@ -171,7 +172,8 @@ def translate(log):
 def enc_history(events):
     out = [len(events)]
     for _, enc in events:
-        out += enc
+        # never a negative number in a case (ids the harness could not attribute are -1)
+        out += [x if not (isinstance(x, int) and x < 0) else BAD for x in enc]
     return out
 
 
